@@ -117,6 +117,14 @@ func (m *monitor) classifyMissing(s *scen, h uint64, id []byte, r *callRes, relN
 	if head, ok := m.passed[h]; ok && head <= h {
 		return "C20/dropped/future-height-skipped"
 	}
+	// the missing DA entry has a byte-identical twin in its own height: entries are told apart by position only
+	if _, i, ok := splitID(id); ok && i >= 0 && i < len(s.da.blobs[h]) {
+		for j, b := range s.da.blobs[h] {
+			if j != i && bytes.Equal(b, s.da.blobs[h][i]) {
+				return "C20/dropped/identical-tx-in-one-height"
+			}
+		}
+	}
 	return "C20/dropped/other"
 }
 
@@ -428,7 +436,15 @@ func (m *monitor) atEnd(c *hx.Ctx, s *scen, max, calls uint64, pos *uint64, q []
 				continue
 			}
 			what := fmt.Sprintf("after %d draining calls (limit %d) the DA tx (height %d, index %d) was never released; scan position %d", calls, eff, h, i, p)
+			twin := false
+			for j, b := range s.da.blobs[h] {
+				if j != i && bytes.Equal(b, s.da.blobs[h][i]) {
+					twin = true
+				}
+			}
 			switch {
+			case twin && findItem(fq, y) < 0 && h < p:
+				c.Report("C20/dropped/identical-tx-in-one-height", what)
 			case h >= p && m.rere[p]:
 				c.Report("C20/complete/stuck-at-rereleased-height", what)
 			case findItem(fq, y) >= 0:
